@@ -89,6 +89,8 @@ def per_object_ops(n):
         ("get_NCPR(pH=10.5)", g(lambda o: o.get_NCPR(10.5))),
         ("get_kappa_X(DEKR)", g(lambda o: o.get_kappa_X(['D', 'E', 'K', 'R']))),
         ("get_kappa_X(ED,KRP)", g(lambda o: o.get_kappa_X(['E', 'D'], ['K', 'R', 'P']))),
+        ("get_kappa_X(W,C)", g(lambda o: o.get_kappa_X(['W'], ['C']))),        # both groups absent: the -1 flag
+        ("get_kappa_X(W)", g(lambda o: o.get_kappa_X(['W']))),
         ("write_compfile", g(lambda o: _write_compfile(o))),
         ("get_molecular_weight", g(lambda o: o.get_molecular_weight())),
         ("get_phasePlotRegion", g(lambda o: o.get_phasePlotRegion())),
@@ -448,7 +450,22 @@ def context_calls():
                 f()
             except Exception:  # noqa
                 pass
-    return [("show-plots", show_plots), ("save-plots", save_plots), ("moves-and-permutants", moves), ("sequence-file", from_file),
+    def degenerate_calls(objs):
+        # calls that are accepted but take a shortcut / early return (absent groups, full-length windows, boundary pH, empty lists)
+        for o in objs.values():
+            n = len(o.get_sequence())
+            for f in (lambda: o.get_kappa_X(["W"], ["C"]), lambda: o.get_kappa_X(["C"], ["W", "M"]), lambda: o.get_kappa_X(["W"]),
+                      lambda: o.get_linear_NCPR(n), lambda: o.get_linear_sigma(n), lambda: o.get_linear_hydropathy(n),
+                      lambda: o.get_linear_complexity(blobLen=n), lambda: o.get_linear_sequence_composition(n),
+                      lambda: o.get_FCR(0), lambda: o.get_NCPR(14), lambda: o.get_mean_net_charge(0.0), lambda: o.get_fraction_expanding(14.0),
+                      lambda: o.get_PPII_propensity("Creamer"), lambda: o.get_PPII_propensity(mode="KALLENBACH"),
+                      lambda: o.get_reduced_alphabet_sequence(20), lambda: o.get_reduced_alphabet_sequence("2"),
+                      lambda: o.get_linear_complexity("lzw", 2, blobLen=n, stepSize=n)):
+                try:
+                    f()
+                except Exception:  # noqa
+                    pass
+    return [("degenerate-arguments", degenerate_calls), ("show-plots", show_plots), ("save-plots", save_plots), ("moves-and-permutants", moves), ("sequence-file", from_file),
             ("setters-on-other-objects", other_object), ("wang-landau-run", wl_run), ("rejected-calls", rejected_calls)]
 
 
@@ -660,7 +677,7 @@ def run(tier, seed, t0):
              "result must be bit-identical to the same call made first on a fresh object that is ALONE in a pristine world, stored sequence and "
              "phosphosites unchanged; merge validation: up to %d alternative histories per state are expanded too and must agree "
              "on every result and successor state. Phase 1b (independent of state merging): for every call i, a fresh world runs i and "
-             "then every call of the same object in turn (all ordered same-object pairs). Phase 3: after each of 7 groups of calls from "
+             "then every call of the same object in turn (all ordered same-object pairs). Phase 3: after each of 8 groups of calls (incl. accepted-but-degenerate arguments: absent kappa_X groups, full-length windows, boundary pH) from "
              "other API areas (show plots, save plots, moves and permutants, reading a sequence file, setters on other objects, a "
              "Wang-Landau run, rejected calls) every read-only call must still answer as on a fresh object. Phase 2: %d inputs chosen to collide on coarse cache keys (equal charge counts at "
              "different lengths, equal composition in different spellings, permutations, equal strings): for every input a, a fresh "
